@@ -304,7 +304,9 @@ impl World {
         ))
     }
 
-    pub fn compare(&mut self, eff: Effects, obs: Observed) -> Result<(), Fail> {
+    pub fn compare(&mut self, mut eff: Effects, obs: Observed) -> Result<(), Fail> {
+        // consequences whose broker-chosen parts are read from the output (idempotent)
+        self.model.resolve_requeries(&mut eff, &ObsView::new(&obs));
         self.notes.extend(eff.notes.iter().copied());
         if let Some(p) = eff.problems.first() {
             return Err(Fail::new("model:expectation", format!("{}\nobserved: {}", p, render_obs(&obs))));
@@ -380,7 +382,7 @@ impl World {
                             }
                         }
                     }
-                    Exp::Announce { .. } => {}
+                    Exp::Announce { .. } | Exp::Requery(_) => {}
                 }
             }
             // announcements of new credit to a sender: any positive amounts whose sum stays within
